@@ -23,6 +23,8 @@ type delivery struct {
 }
 
 type timedRun struct {
+	syncObserver bool   // ledger synchronisation for the observer (node 100) only: it follows the chain even when it missed a round
+	observerUntil uint32 // ... while it is an observer: blocks below this height
 	txMiss      bool // a validator's pool may lack transactions of the proposal: it asks for them (RequestTx) and gets them a little later
 	c           *Cluster
 	rng         *mrand.Rand
@@ -280,6 +282,9 @@ func (t *timedRun) loopStop(tmax int64, live func() []*Node, hook func(), stop f
 			}
 		case ns <= now:
 			t.nextSync = now + t.tpb/2
+			if t.syncObserver {
+				t.nextSync = now + t.tpb/8
+			}
 			t.syncLedgers()
 		default: // timer
 			var due []*Node
@@ -300,7 +305,7 @@ func (t *timedRun) loopStop(tmax int64, live func() []*Node, hook func(), stop f
 func (t *timedRun) syncLedgers() {
 	c := t.c
 	for _, n := range c.Nodes {
-		if !n.started || t.cut[n.ID] {
+		if !n.started || t.cut[n.ID] || (t.syncObserver && n.ID != 100) {
 			continue
 		}
 		if _, pending := t.resetAt[n.ID]; pending {
@@ -309,6 +314,9 @@ func (t *timedRun) syncLedgers() {
 		b := c.Chain[n.Height+1]
 		if b == nil || len(n.Accepted[n.Height+1]) > 0 {
 			continue
+		}
+		if t.syncObserver && b.Rec.H >= t.observerUntil {
+			continue // from then on it is a validator and decides by itself
 		}
 		// somebody reachable must have it in its ledger
 		ok := false
@@ -322,6 +330,13 @@ func (t *timedRun) syncLedgers() {
 		}
 		n.AdvanceLedger(b)
 		t.setupPool(n)
+		if t.dyn {
+			for _, e := range t.txEv { // transactions that showed up meanwhile
+				if e.h == n.Height+1 && (e.at <= t.c.Clk.Now && e.at >= 0 || e.at < 0 && -1-e.at <= t.c.Clk.Now) {
+					n.Pool = []Tx{Tx(fmt.Sprintf("t%d.0", e.h))}
+				}
+			}
+		}
 		t.after(n, n.Reset())
 	}
 }
@@ -405,11 +420,30 @@ func runSync(out *TraceWriter, seed int64, run int, heights int, forceDyn bool) 
 		t.victimDelay = 600
 		t.resetDelay = 0
 	}
+	// the validator set may grow: the observer (node 100) joins the list from some height on - at its first height as a validator it
+	// has not taken part in the previous round (nothing of "the last block" is known to its consensus context)
+	joinAt := uint32(0)
+	if extraWatch && rng.Intn(2) == 0 {
+		joinAt = t.h0 + 2 + uint32(rng.Intn(2))
+		t.resetDelay, t.txMiss, t.victim, t.victimDelay = 0, false, -1, 0
+		t.observerUntil = joinAt
+		t.ledgerSync, t.syncObserver = true, true // an observer that got the commits before the proposal never accepts the block (O-11): it fetches it
+		t.nextSync = t.c.Clk.Now + t.tpb/4
+	}
 	out.Write(RunStart{Call: "RunStart", Run: run, Seed: seed, Driver: "sync", Sync: true,
 		Nodes: append(append([]int{}, t.vals...), map[bool][]int{true: {100}, false: {}}[extraWatch]...), Faulty: []int{},
 		Params: map[string]any{"n0": n0, "h0": t.h0, "target": t.target, "delayMax": t.delayMax, "dup": t.dupPct, "resetDelay": t.resetDelay,
-			"amevH": cfg.AmevH, "maxTpb": cfg.MaxTpb, "tpb": t.tpb, "inc": cfg.Inc, "dyn": t.dyn, "victim": t.victim, "txMiss": t.txMiss}})
+			"amevH": cfg.AmevH, "maxTpb": cfg.MaxTpb, "tpb": t.tpb, "inc": cfg.Inc, "dyn": t.dyn, "victim": t.victim, "txMiss": t.txMiss, "joinAt": joinAt}})
 	t.addNodes(cfg, extraWatch)
+	if joinAt > 0 {
+		base := append([]int{}, t.vals...)
+		t.c.Vals = func(h uint32) []int {
+			if h >= joinAt {
+				return append(append([]int{}, base...), 100)
+			}
+			return base
+		}
+	}
 	for _, n := range t.c.Nodes {
 		t.setupPool(n)
 		t.after(n, n.Start())
